@@ -142,6 +142,12 @@ fn read_source_files(
             )));
         }
         for import in ast.imports.iter() {
+            if import.0 == package {
+                return Err(compile_error(format!(
+                    "package dependency cycle detected: {} -> {}",
+                    package, package
+                )));
+            }
             imports.insert(import.0.clone());
         }
         source_list.push(path.display().to_string());
